@@ -181,3 +181,33 @@ func HarnessC01History() {
 	w.history("C01", true)
 	verifReach("C01.history")
 }
+
+// ---- access to a map forest's stored state through the exported storage interfaces only ----
+
+type storedNode struct {
+	pos  uint64
+	leaf Leaf
+}
+
+func storedNodes(m *MapPollard) []storedNode {
+	var out []storedNode
+	m.Nodes.ForEach(func(k uint64, v Leaf) error {
+		out = append(out, storedNode{k, v})
+		return nil
+	})
+	return out
+}
+
+type cachedLeaf struct {
+	hash Hash
+	pos  uint64
+}
+
+func cachedLeaves(m *MapPollard) []cachedLeaf {
+	var out []cachedLeaf
+	m.CachedLeaves.ForEach(func(k Hash, v uint64) error {
+		out = append(out, cachedLeaf{k, v})
+		return nil
+	})
+	return out
+}
